@@ -147,7 +147,13 @@ Definition spec_op (e : env) (o : term) : env * option str :=
 Fixpoint spec_run (e : env) (ops : list term) (acc : list (option str)) : env * list (option str) :=
   match ops with
   | [] => (e, rev acc)
-  | o :: r => let '(e', out) := spec_op e o in spec_run e' r (out :: acc)
+  | o :: r =>
+      (* ("quiet" op): the same operation, its script followed by `; string length {}` so that nothing
+         asks for the string of the value it produced: the outcome is 0 when the operation succeeds *)
+      if is_op o "quiet" then
+        let '(e', out) := spec_op e (term_nth o 1) in
+        spec_run e' r (match out with Some _ => Some [48] | None => None end :: acc)
+      else let '(e', out) := spec_op e o in spec_run e' r (out :: acc)
   end.
 
 Definition outcome_matches (exp : option str) (obs : term) : bool :=
